@@ -248,6 +248,7 @@ class Shared:
         self.o = outer
         self.facts = outer.facts
         self.tier = getattr(outer, 'tier', 'quick')
+        self.depth = getattr(outer, 'depth', 0) + 1
         self.extra = {}
         self.explanation = ''
         self._rule, self._select, self._prefix, self._suffix = rule, select, prefix, suffix
